@@ -599,6 +599,15 @@ class Interp:
         for t in st.targets:
             if isinstance(t, ast.Name):
                 env.pop(t.id, None)
+            elif isinstance(t, ast.Subscript):
+                base = self.eval(t.value, env)
+                key = self.eval(t.slice, env)
+                if isinstance(base, dict) and isinstance(key, (str, int)):
+                    if key not in base:
+                        self.fail(f"del_missing_key_{key}@{self.cur_line}")
+                    del base[key]
+                else:
+                    raise Unsupported("del of a symbolic subscript")
             else:
                 raise Unsupported("del of non-name")
 
@@ -1217,6 +1226,8 @@ class Interp:
     # ----------------------------------------------------------- attributes
     def getattr(self, base, attr, node=None):
         if isinstance(base, Obj):
+            if attr == "__dict__":
+                return base.attrs          # the live attribute dictionary
             if attr in base.attrs:
                 return base.attrs[attr]
             ci = ClassIndex.get()
